@@ -11,7 +11,7 @@ import itertools
 from ..program import AnalysisError, Inconclusive, ClassInfo
 from ..values import (Const, Sym, CRef, FRef, Bound, Obj, Tup, App, New,
                       Raise, Coll, walk)
-from ..interp import Interp, Hooks
+from ..interp import Interp, Hooks, prologue_helpers
 from ..templates import (TemplateHooks, extract, generic_instances, show,
                          to_term, make_hole)
 from ..formulas import LANGS
@@ -304,7 +304,7 @@ class _EntryHooks(TemplateHooks, GraphHooks):
         self.entry = entry
 
     def inline(self, I, fi, args):
-        return fi is self.entry
+        return fi is self.entry or fi.qn in prologue_helpers(self.entry)
 
     def call(self, I, fv, args, kw, path, node):
         if isinstance(fv, FRef) and fv.fi is self.lnot and len(args) == 1:
@@ -325,9 +325,12 @@ def tableau_alphabet(prog):
         for n in ast.walk(fi.node):
             if isinstance(n, ast.Call) and isinstance(n.func, ast.Name) and \
                     n.func.id == 'isinstance' and len(n.args) == 2:
-                c = prog.eval_static(mod, n.args[1])
-                if isinstance(c, ClassInfo):
-                    names.add(c.name)
+                cl = n.args[1].elts if isinstance(n.args[1], ast.Tuple) \
+                    else [n.args[1]]
+                for ce in cl:
+                    c = prog.eval_static(mod, ce)
+                    if isinstance(c, ClassInfo):
+                        names.add(c.name)
             if isinstance(n, ast.Raise):
                 has_raise = True
         if has_raise and {'X', 'U', 'Or', 'Not'} <= names:
